@@ -92,6 +92,11 @@ def run(chk, replay=None):
                 for fld, key in (("state", "state"), ("output", "out"), ("rng", "rng"), ("inputs", "wins")):
                     if not rec.get(fld, False) and key in c:
                         chk.violation("record-setting-ignored", f"{nname}: field {fld} recorded although switched off ({vn})", dict(cfg=cfg))
+        # (3) the recorded scheduling terms are the ones the step's start was computed from
+        from . import async_checks as ac
+        if not eps["all"]["record"].get("unavailable"):
+            for sig, det in ac.check_sched_terms(cfg, G["node_phase"], G["conn_phase"], eps["all"]["record"]):
+                chk.violation(sig, det, dict(cfg=cfg))
         # model tie
         for m in G.get("models", []):
             d = al.compare_episode(cfg, eps["all"], m)
